@@ -82,3 +82,39 @@ package base
 //@   preserves mem(LogTransformFunc), mem(LogFieldLocator), LogRecord.Fields
 //@   ensures  tlogn == old(tlogn) + 1 && tlog[old(tlogn)] == self && tres[old(tlogn)] == (result ? 1 : 0)
 //@   ensures  forall i int :: 0 <= i && i < old(tlogn) ==> tlog[i] == old(tlog[i]) && tres[i] == old(tres[i])
+
+// ---- schema (C16) ------------------------------------------------------------------------------------------------------------
+// hasf(s, k): the schema has a field whose name has map key k (opaque; the definition "some fieldNames[i] equals the name"
+// is proved in CreateFieldLocator and not exported)
+//@ pure func hasf(s LogSchema, k int) bool
+//@ pure func hasname(s LogSchema, name string) bool := exists i int :: 0 <= i && i < len(s.fieldNames) && s.fieldNames[i] == name
+
+//@ func (s *LogSchema) CreateFieldLocator(name string) (LogFieldLocator, error)
+//@   property C16
+//@   requires s != nil
+//@   define   hasf(*s, key(name)) <==> hasname(*s, name)
+//@   ensures  result.1 == nil <==> hasf(*s, key(name))
+//@   ensures[!definition] result.1 == nil <==> hasname(*s, name)
+//@   ensures  result.1 == nil ==> 0 <= result.0 && result.0 < len(s.fieldNames)
+
+//@ func (s *LogSchema) MustCreateFieldLocator(name string) LogFieldLocator
+//@   property C16
+//@   requires s != nil
+//@   requires[field-validated-at-load-time] hasf(*s, key(name))
+//@   ensures  0 <= result && result < len(s.fieldNames)
+
+//@ func (s *LogSchema) CreateFieldLocators(names []string) ([]LogFieldLocator, error)
+//@   property C16
+//@   requires s != nil
+//@   modifies nothing
+//@   ensures  result.1 == nil ==> len(result.0) == len(names) && (forall i int :: 0 <= i && i < len(names) ==> hasf(*s, key(names[i])) && 0 <= result.0[i] && result.0[i] < len(s.fieldNames))
+//@   ensures  (forall i int :: 0 <= i && i < len(names) ==> hasf(*s, key(names[i]))) ==> result.1 == nil
+//@   loop 1: invariant -1 <= rangeindex && rangeindex < len(names) && len(locators) == len(names) && isfresh(locators)
+//@   loop 1: invariant forall i int :: 0 <= i && i <= rangeindex ==> hasf(*s, key(names[i])) && 0 <= locators[i] && locators[i] < len(s.fieldNames)
+
+//@ func (s *LogSchema) MustCreateFieldLocators(names []string) []LogFieldLocator
+//@   property C16
+//@   requires s != nil
+//@   requires[fields-validated-at-load-time] forall i int :: 0 <= i && i < len(names) ==> hasf(*s, key(names[i]))
+//@   modifies nothing
+//@   ensures  len(result) == len(names)
